@@ -20,6 +20,12 @@ for c in man["checks"]:
     else:
         out.append(f"| {pid} | (no evidence yet) | | | |")
 out.append("")
+kf = json.load(open(os.path.join(ROOT, "known-findings.json")))
+out += ["#### Known findings (generated from known-findings.json)", "", "| id | property | what fails | predicate | witness |", "|---|---|---|---|---|"]
+for f in kf["findings"]:
+    cell = lambda x: str(x or "").replace("|", "/").replace("\n", " ")
+    out.append(f"| {f['id']} | {f['property']} | {cell(f.get('what'))} | {cell(f.get('predicate'))} | {cell(f.get('witness'))} |")
+out += ["", "#### Repaired defects (`fixed:` entries)", ""] + [f"* {x}" for x in kf["fixed"]] + [""]
 sd = os.path.join(ROOT, "seeded")
 if os.path.isdir(sd):
     out += ["#### Seeded changes (independent sub-agents) and what the checks reported", "",
